@@ -28,6 +28,8 @@ template <
 >
 class HeterEventDispatcherBase
 {
+	EVENTPP_VERIF_FRIEND
+
 protected:
 	using ThisType = HeterEventDispatcherBase<
 		EventType_,
@@ -117,6 +119,7 @@ public:
 	Handle appendListener(const Event & event, const C & callback)
 	{
 		std::lock_guard<Mutex> lockGuard(listenerMutex);
+		EVENTPP_VERIF_POINT("ed.appendListener.cs");
 
 		return eventCallbackListMap[event].append(callback);
 	}
@@ -125,6 +128,7 @@ public:
 	Handle prependListener(const Event & event, const C & callback)
 	{
 		std::lock_guard<Mutex> lockGuard(listenerMutex);
+		EVENTPP_VERIF_POINT("ed.prependListener.cs");
 
 		return eventCallbackListMap[event].prepend(callback);
 	}
@@ -133,6 +137,7 @@ public:
 	Handle insertListener(const Event & event, const C & callback, const Handle & before)
 	{
 		std::lock_guard<Mutex> lockGuard(listenerMutex);
+		EVENTPP_VERIF_POINT("ed.insertListener.cs");
 
 		return eventCallbackListMap[event].insert(callback, before);
 	}
@@ -256,6 +261,7 @@ private:
 		-> typename std::conditional<std::is_const<T>::value, const CallbackList_ *, CallbackList_ *>::type
 	{
 		std::lock_guard<Mutex> lockGuard(self->listenerMutex);
+		EVENTPP_VERIF_POINT("ed.find.cs");
 
 		auto it = self->eventCallbackListMap.find(e);
 		if(it != self->eventCallbackListMap.end()) {
